@@ -6,12 +6,15 @@ import Algo
 namespace Drv
 open Sodg
 
+abbrev GX := Sodg.GX Label Hex
+
 inductive HS where
   | live (g : G)
   | dead          -- a call on it panicked
-  | unmodelled    -- left the modelled fragment (`join`; anything but core calls on a `total` handle)
-  | total (g : G) (panicked : Bool)
-      -- outside the fragment of `step`, followed by the total model `stepT` (Core/Total.lean): after a 15th group
+  | unmodelled    -- left the modelled fragment (save/load, scripts and text exports of a `total` handle with removed slots)
+  | total (x : GX) (panicked : Bool)
+      -- outside the fragment of `step`, followed by the total model `stepX` (Core/Holes.lean; `stepT` of
+      -- Core/Total.lean as long as no slot was removed): after a 15th group or a `join` inside `merge`
       -- (`panicked = false`), and, when the harness keeps executing calls on a handle that has panicked (soak
       -- mode, C07), in the state the panic left behind (`panicked = true`; the observations carry the prefix `soak`)
 
@@ -88,8 +91,9 @@ def esc (t : String) : String :=
     else if c = '\r' then "%0D" else c.toString))
 
 /-- the complete internal state, in the format the harness prints from the hook `verif_snapshot()` -/
-def showSnap (g : G) : String :=
-  let vs := (List.range (cap g)).map (fun v =>
+def showSnapX (x : GX) : String :=
+  let g := x.g
+  let vs := ((List.range (cap g)).filter (fun v => !x.holes.contains v)).map (fun v =>
     let x := g.vs[v]!
     let p := match x.pers with | .empty => 0 | .stored => 1 | .taken => 2
     let heap := match x.data with | .vector _ => 1 | .inline _ _ => 0
@@ -98,8 +102,13 @@ def showSnap (g : G) : String :=
   let ss := (List.range g.st.size).map (fun b => s!"{b}={cnt g b}")
   s!"ok next={g.next} v " ++ "|".intercalate vs ++ " b " ++ ";".intercalate bs ++ " s " ++ ";".intercalate ss
 
+def showSnap (g : G) : String := showSnapX ⟨g, []⟩
+
 def showObserve (g : G) : String :=
   "ok " ++ " ".intercalate ((keys g).map (showEntry g))
+
+def showObserveX (x : GX) : String :=
+  "ok " ++ " ".intercalate ((keysX x).map (showEntry x.g))
 
 def opArgs : Op → List Nat
   | .add v => [v]
@@ -117,21 +126,32 @@ def showPost (g : G) (op : Op) : String :=
   showNats (keys g) ++ " ; " ++
     " ".intercalate (((opArgs op).filter (fun v => v < cap g ∧ tag g v ≠ 0)).map (showEntry g))
 
+def showPostX (x : GX) (op : Op) : String :=
+  showNats (keysX x) ++ " ; " ++
+    " ".intercalate (((opArgs op).filter (fun v => x.acc v ∧ tag x.g v ≠ 0)).map (showEntry x.g))
+
 /-- a core call through the total model: the state the call leaves behind even when it panics -/
-def totalCall (soak : Bool) (g : G) (panicked : Bool) (op : Op) : HS × String :=
+def totalCall (soak : Bool) (x : GX) (panicked : Bool) (op : Op) : HS × String :=
   let pre := if panicked then "soak " else ""
-  match stepT g op with
-  | (g', some o) => (.total g' panicked, pre ++ showOut o ++ " ; " ++ showPost g' op)
-  | (g', none) => if soak then (.total g' true, pre ++ "panic") else (.dead, "panic")
+  match stepX x (.core op) with
+  | (x', some o) => (.total x' panicked, pre ++ showOut o ++ " ; " ++ showPostX x' op)
+  | (x', none) => if soak then (.total x' true, pre ++ "panic") else (.dead, "panic")
+
+/-- `merge` through the total model (`join` included) -/
+def totalMerge (soak : Bool) (x hx : GX) (panicked : Bool) (l r : Nat) : HS × String :=
+  match mergeX x hx l r with
+  | (x', some .ok) => (.total x' panicked, "ok ; " ++ showNats (keysX x'))
+  | (x', some (.err missed)) => (.total x' panicked, "err " ++ showNats missed ++ " ; " ++ showNats (keysX x'))
+  | (x', none) => if soak then (.total x' true, "panic") else (.dead, "panic")
 
 /-- run a core call on a live graph -/
 def coreCall (soak : Bool) (g : G) (op : Op) : HS × String :=
   let unm := match op with
     | .bind v1 v2 _ => bindUnmodelled g v1 v2
     | _ => false
-  if unm then totalCall soak g false op
+  if unm then totalCall soak ⟨g, []⟩ false op
   else match step g op with
-    | none => if soak then totalCall soak g false op else (.dead, "panic")
+    | none => if soak then totalCall soak ⟨g, []⟩ false op else (.dead, "panic")
     | some (g', o) => (.live g', showOut o ++ " ; " ++ showPost g' op)
 
 def execLine2 (w : World) (line : String) : World × String :=
@@ -149,7 +169,7 @@ def execLine2 (w : World) (line : String) : World × String :=
     | some a, some b =>
       match w.get a with
       | some (.live g) => (w.set b (.live g), "ok ; " ++ showNats (keys g))
-      | some (.total g _) => (w.set b (.total g false), "ok ; " ++ showNats (keys g))
+      | some (.total x _) => (w.set b (.total x false), "ok ; " ++ showNats (keysX x))
       | some .dead => (w.set b .dead, "dead")
       | some .unmodelled => (w.set b .unmodelled, "unmodelled")
       | none => (w, "bad-op")
@@ -157,7 +177,7 @@ def execLine2 (w : World) (line : String) : World × String :=
   | ["snap", h] =>
     match (parseHandle h).bind w.get with
     | some (.live g) => (w, (showSnap g).replace " " "_")
-    | some (.total g _) => (w, (showSnap g).replace " " "_")
+    | some (.total x _) => (w, (showSnapX x).replace " " "_")
     | some .dead => (w, "dead")
     | some .unmodelled => (w, "unmodelled")
     | none => (w, "bad-op")
@@ -166,7 +186,7 @@ def execLine2 (w : World) (line : String) : World × String :=
     | some a =>
       match w.get a with
       | some (.live g) => (w, showObserve g)
-      | some (.total g _) => (w, showObserve g)
+      | some (.total x _) => (w, showObserveX x)
       | some .dead => (w, "dead")
       | some .unmodelled => (w, "unmodelled")
       | none => (w, "bad-op")
@@ -181,7 +201,13 @@ def execLine2 (w : World) (line : String) : World × String :=
         | none => (w.set b .dead, "panic")
       | some .dead => (w.set b .dead, "dead")
       | some .unmodelled => (w.set b .unmodelled, "unmodelled")
-      | some (.total _ _) => (w.set b .unmodelled, "unmodelled")
+      | some (.total x _) =>
+        -- `slice_some` only reads the source: the same function of the state, whatever calls made it
+        if x.holes.isEmpty then
+          match sliceSome x.g v (fun x y l => !rj.contains (x, y, l)) with
+          | some g' => (w.set b (.live g'), "ok ; " ++ showNats (keys g'))
+          | none => (w.set b .unmodelled, "unmodelled")
+        else (w.set b .unmodelled, "unmodelled")
       | none => (w, "bad-op")
     | _, _, _, _ => (w, "bad-op")
   | ["merge", h, h', l, r] =>
@@ -190,16 +216,29 @@ def execLine2 (w : World) (line : String) : World × String :=
       match w.get a, w.get b with
       | some (.live g), some (.live hg) =>
         match Sodg.merge g hg l r with
-        | none => (w.set a .dead, "panic")
+        | none =>
+          if w.soak then
+            let (s, out) := totalMerge w.soak ⟨g, []⟩ ⟨hg, []⟩ false l r
+            (w.set a s, out)
+          else (w.set a .dead, "panic")
         | some (g', .ok) => (w.set a (.live g'), "ok ; " ++ showNats (keys g'))
         | some (g', .err missed) => (w.set a (.live g'), "err " ++ showNats missed ++ " ; " ++ showNats (keys g'))
-        | some (_, .joined) => (w.set a .unmodelled, "unmodelled")
+        | some (_, .joined) =>
+          let (s, out) := totalMerge w.soak ⟨g, []⟩ ⟨hg, []⟩ false l r
+          (w.set a s, out)
       | some .dead, _ => (w, "dead")
       | _, some .dead => (w, "dead")
       | some .unmodelled, _ => (w, "unmodelled")
-      | some (.total _ _), some _ => (w.set a .unmodelled, "unmodelled")
       | some _, some .unmodelled => (w.set a .unmodelled, "unmodelled")
-      | some _, some (.total _ _) => (w.set a .unmodelled, "unmodelled")
+      | some (.total x p), some (.live hg) =>
+        let (s, out) := totalMerge w.soak x ⟨hg, []⟩ p l r
+        (w.set a s, out)
+      | some (.total x p), some (.total hx _) =>
+        let (s, out) := totalMerge w.soak x hx p l r
+        (w.set a s, out)
+      | some (.live g), some (.total hx _) =>
+        let (s, out) := totalMerge w.soak ⟨g, []⟩ hx false l r
+        (w.set a s, out)
       | _, _ => (w, "bad-op")
     | _, _, _, _ => (w, "bad-op")
   | ["same", _, _] => (w, "ok")
@@ -223,7 +262,7 @@ def execLine2 (w : World) (line : String) : World × String :=
     | some (.live g) => (w, "ok " ++ hexOfBytes (Cd.save g))
     | some .dead => (w, "dead")
     | some .unmodelled => (w, "unmodelled")
-    | some (.total _ _) => (w, "unmodelled")
+    | some (.total x _) => if x.holes.isEmpty then (w, "ok " ++ hexOfBytes (Cd.save x.g)) else (w, "unmodelled")
     | none => (w, "bad-op")
   | ["reload", h, h'] =>
     match parseHandle h, parseHandle h' with
@@ -236,7 +275,13 @@ def execLine2 (w : World) (line : String) : World × String :=
         | .error _ => (w.set b .dead, "err")
       | some .dead => (w.set b .dead, "dead")
       | some .unmodelled => (w.set b .unmodelled, "unmodelled")
-      | some (.total _ _) => (w.set b .unmodelled, "unmodelled")
+      | some (.total x _) =>
+        if x.holes.isEmpty then
+          match Cd.load x.g.n (Cd.save x.g) with
+          | .ok g' => (w.set b (.total ⟨g', []⟩ false), "ok ; " ++ showNats (keys g'))
+          | .error .panic => (w.set b .dead, "panic")
+          | .error _ => (w.set b .dead, "err")
+        else (w.set b .unmodelled, "unmodelled")
       | none => (w, "bad-op")
     | _, _ => (w, "bad-op")
   | ["loadcuts", h, step] =>
@@ -287,7 +332,11 @@ def execLine (w : World) (line : String) : World × String :=
         (w, "ok " ++ esc (if cmd = "xml" then Rs.toXml g else if cmd = "dot" then Rs.toDot g else Rs.toDebug g))
       | some .dead => (w, "dead")
       | some .unmodelled => (w, "unmodelled")
-      | some (.total _ _) => (w, "unmodelled")
+      | some (.total x _) =>
+        -- the exports only read the state: the same functions of it, whatever calls made it
+        if x.holes.isEmpty then
+          (w, "ok " ++ esc (if cmd = "xml" then Rs.toXml x.g else if cmd = "dot" then Rs.toDot x.g else Rs.toDebug x.g))
+        else (w, "unmodelled")
       | none => (w, "bad-op")
     else execLine2 w line
   | [cmd, h, v] =>
@@ -299,7 +348,12 @@ def execLine (w : World) (line : String) : World × String :=
         | none => (w, "panic")
       | some .dead, _ => (w, "dead")
       | some .unmodelled, _ => (w, "unmodelled")
-      | some (.total _ _), _ => (w, "unmodelled")
+      | some (.total x _), some v =>
+        if x.holes.isEmpty then
+          match (if cmd = "inspect" then Rs.toInspect x.g v else Rs.vPrint x.g v) with
+          | some t => (w, "ok " ++ esc t)
+          | none => (w, "panic")
+        else (w, "unmodelled")
       | _, _ => (w, "bad-op")
     else execLine2 w line
   | _ => execLine2 w line
